@@ -85,17 +85,28 @@ def gen_table(rnd, tid, quirks=False):
         if kind == 'int' and rnd.random() < 0.25:
             chk = rnd.choice(['nonneg', 'bool01'])
         opts.append([kind, chk, names])
-    # wildcard options (accessor kinds only: a StoredOption ignores the key body)
-    heads = [(b'obj:', b'obj_'), (b'pri:', b'pri_')]
-    rnd.shuffle(heads)
-    for h in heads[:rnd.choice([0, 1, 1, 2])]:
+    # wildcard options (accessor kinds only: a StoredOption ignores the key body).  The synonym
+    # patterns have DIFFERENT shapes (head/tail lengths, empty tail, empty head): the key body is part
+    # of the address and must be cut with the pattern that matched, not with the primary name's.
+    fams = [(b'obj', b'objective'), (b'pri', b'priority')]
+    rnd.shuffle(fams)
+    for short, long_ in fams[:rnd.choice([0, 1, 1, 2, 2])]:
         tail = rnd.choice([b'method', b'w', b'', b'tol'])
-        names = [h[0] + b'*' + ((b':' + tail) if tail else b'')]
-        if rnd.random() < 0.7:
-            names.append(h[1] + b'*' + ((b'_' + tail) if tail else b''))
+        pats = [short + b':*' + ((b':' + tail) if tail else b'')]                 # primary
+        cands = [short + b'_*' + ((b'_' + tail) if tail else b''),               # same shape
+                 long_ + b'_*' + ((b'_' + tail[:2]) if tail else b''),          # longer head, shorter tail
+                 short + (tail if tail else b'x') + b'*',                         # empty tail
+                 b'*@' + short + tail]                                            # empty head
+        for c in cands:
+            if rnd.random() < 0.7:
+                pats.append(c)
+        if rnd.random() < 0.3:
+            first, rest = pats[0], pats[1:]
+            rnd.shuffle(rest)
+            pats = [first] + rest
         if quirks and rnd.random() < 0.5:
-            names.append(h[1] + b'plain')           # synonym without '*': wc_split returns (s, s)
-        opts.append([rnd.choice(['int', 'dbl', 'str']), 'any', names])
+            pats.append(short + b'_plain')           # synonym without '*': wc_split returns (s, s)
+        opts.append([rnd.choice(['int', 'int', 'dbl', 'str']), 'any', pats])
     if quirks:
         r = rnd.random()
         if r < 0.3:      # a case-insensitive duplicate of an existing name: AddOption throws, table unchanged
@@ -213,11 +224,18 @@ def ws(rnd, minimum=0):
     return b''.join(rnd.choice([b' ', b' ', b' ', b'\t', b'\n', b'\r', b'\f', b'\v']) for _ in range(k))
 
 
+GEN_STATS = {}
+
+
 def gen_key(rnd, opt):
     """a way to address `opt`; returns (key bytes, body or None)"""
     if opt.wild:
         pat = rnd.choice([nm for nm in opt.names if b'*' in nm])
-        body = rnd.choice([b'1', b'2', b'10', b'7', b'ab', b'X', b'3'])
+        body = rnd.choice([b'1', b'2', b'3', b'10', b'ab', b'X'])
+        shape = lambda q: (q.index(b'*'), len(q) - q.index(b'*') - 1)
+        k = 'primary' if pat == opt.names[0] else 'synonym-same-shape' if shape(pat) == shape(opt.names[0]) else \
+            'synonym-empty-tail' if shape(pat)[1] == 0 else 'synonym-empty-head' if shape(pat)[0] == 0 else 'synonym-other-shape'
+        GEN_STATS[k] = GEN_STATS.get(k, 0) + 1
         return pat.replace(b'*', body, 1), body
     nm = rnd.choice(opt.names)
     return recase(rnd, nm), None
@@ -516,6 +534,19 @@ def same_result(pi, pm):
 
 # ----------------------------------------------------------------------------- oracle
 
+def std_name(o, body):
+    """what echo shows: the primary name, for a wildcard option with the body in place of '*'"""
+    return o.names[0].replace(b'*', body, 1) if o.wild else o.names[0]
+
+
+def log_final_map(shown):
+    """'w(body:val)(body:val)...' -> {body: last val}"""
+    m = {}
+    for b, v in re.findall(r'\(([0-9a-f]*):([^)]*)\)', shown):
+        m[b] = v
+    return m
+
+
 def expected_final(opts, exp):
     """apply the assignments in order (python reference, independent of the Lean model)"""
     vals = {}
@@ -570,11 +601,36 @@ def oracle_wellformed(pi, opts, exp):
         return [('wellformed:%s' % pi['outcome'].replace(':', '-'), 'well-formed options text did not parse normally: outcome %s' % pi['outcome'])]
     vals, logs, errs, nonerr, wraps = expected_final(opts, exp)
     wrapped_idx = {w[1] for w in wraps}
+    by_idx = {o.idx: o for o in opts}
+    # echo: one line per non-error item, in order, naming the addressed option/entry in standard form
+    if not exp['no_echo']:
+        want_names = []
+        for e in exp['applied']:
+            if e[0] in ('set', 'intwrap'):
+                want_names.append((by_idx[e[1]], std_name(by_idx[e[1]], e[2] or b'')))
+            elif e[0] == 'query':
+                want_names.append((by_idx[e[1]], std_name(by_idx[e[1]], e[2] or b'')))
+        if len(want_names) == len(pi['echo']):
+            for (o, nm), got_hex in zip(want_names, pi['echo']):
+                line = bytes.fromhex(got_hex)
+                ok = (line == b'  ' + nm + b'\n') if o.base == 'flag' else line.startswith(b'  ' + nm + b' = ')
+                if not ok:
+                    bad.append(('wellformed:echo-names-wrong-%s' % ('wildcard-entry' if o.wild else 'option'),
+                                'echo line %r does not name %r' % (line[:80], nm)))
+                    break
     for o in opts:
         want = show_expected(o, vals, logs)
         got = pi['vals'][o.idx]
         if o.idx in wrapped_idx:
             continue    # judged below
+        if o.wild and want != got:
+            # which entry (key body) received which value, for every spelling of the key
+            wm, gm = log_final_map(want), log_final_map(got)
+            if wm != gm:
+                bad.append(('wellformed:wildcard-entry:final-value', 'wildcard option %r: final entries (body->value) expected %s, implementation has %s (later assignment through another spelling must override)' % (o.names[0], wm, gm)))
+            else:
+                bad.append(('wellformed:wildcard-entry:assignment-sequence', 'wildcard option %r: expected assignments %s, implementation recorded %s' % (o.names[0], want, got)))
+            continue
         if want != got:
             kind = 'faithful-or-order'
             if any(e[1] == o.idx for e in exp['ignored'] if e[0] in ('set',)) and not any(e[1] == o.idx for e in exp['applied'] if e[0] == 'set'):
@@ -671,7 +727,7 @@ def build(ck):
 
 
 def run(ck):
-    N_THEOREMS = 24
+    N_THEOREMS = 26
     proof_ok, failing = ck.proof_stage('MpVerif.C11.Props', 'MpVerif/C11/Props.lean', 'C11_',
                                         ['MpVerif/C11/*.lean'], expect_min=N_THEOREMS)
     ck.log('proof stage: ok=%s failing=%s' % (proof_ok, failing[:10]))
@@ -683,6 +739,7 @@ def run(ck):
     exe = build(ck)
     drv = ck.driver('drv_c11')
     rnd = random.Random(ck.seed * 1000003 + 11)
+    GEN_STATS.clear()
     quick = ck.tier == 'quick'
     n_tables = 12 if quick else 60
     n_wf = 4000 if quick else 40000
@@ -826,6 +883,7 @@ def run(ck):
     ck.cov['distinct_nontrivial'] = len(distinct)
     ck.cov['rule'] = 'distinct canonical result lines (outcome, errors, all option values, echo) of the real BasicSolver::ParseOptions over generated cases'
     ck.cov['exhaustive'] = False
+    hist['wildcard_key_spellings'] = dict(GEN_STATS)
     ck.cov['generator_histogram'] = hist
     ck.cov['correspondence'] = {'cases': n_cases, 'agree': n_same, 'disagree': len(corr_bad), 'over_reads_detected_by_asan': len(overreads)}
     ck.assumptions += [
